@@ -52,6 +52,13 @@ impl<K, N, E> Node<K, N, E> {
     { unimplemented!() }
 //@endif
 }
+impl<K, N, E> Node<K, N, E> {
+    // R16: Rc::ptr_eq / Arc::ptr_eq on two handles: the same allocation has the same key (not conversely)
+    #[verifier::external_body]
+    pub fn same_cell(&self, other: &Self) -> (r: bool)
+        ensures r ==> self.k() == other.k()
+    { unimplemented!() }
+}
 impl<K, N, E> Clone for Node<K, N, E> {
     #[verifier::external_body]
     fn clone(&self) -> (r: Self)
